@@ -115,9 +115,12 @@ type dop struct {
 	arg  string
 }
 
-func (h *H) directCase(id string, mask uint32, ops []dop) {
+func (h *H) directCase(id string, mask uint32, ops []dop) { h.directCaseProbe(id, mask, "std", ops) }
+
+// directCaseProbe: probe = how the terminal answers the explicit-width probe of start-up (std | silent | col7).
+func (h *H) directCaseProbe(id string, mask uint32, probe string, ops []dop) {
 	r := h.r
-	f, err := inp.NewFixture(mask, 0, false)
+	f, err := inp.NewFixtureProbe(mask, 0, false, probe)
 	if err != nil {
 		r.Case(id)
 		r.Emit(fmt.Sprintf("init mask=%d new-failed", mask), "error")
@@ -130,7 +133,12 @@ func (h *H) directCase(id string, mask uint32, ops []dop) {
 	}
 	f.StubOn()
 	r.Case(id)
-	r.Emit(fmt.Sprintf("init mask=%d %s", mask, inp.CanonState(f.Vx.VerifC03Snapshot())), "-")
+	if probe == "std" {
+		r.Emit(fmt.Sprintf("init mask=%d %s", mask, inp.CanonState(f.Vx.VerifC03Snapshot())), "-")
+	} else {
+		r.Emit(fmt.Sprintf("init mask=%d probe=%s %s", mask, probe, inp.CanonState(f.Vx.VerifC03Snapshot())), "-")
+		r.Count("probe-" + probe)
+	}
 	for _, op := range ops {
 		switch op.kind {
 		case "seq":
@@ -316,6 +324,7 @@ func (h *H) replay() error {
 // runOps re-runs one case given its op lines (as emitted).
 func (h *H) runOps(ops []string) {
 	var mask uint32
+	probe := "std"
 	var dops []dop
 	stream := false
 	var data string
@@ -341,6 +350,9 @@ func (h *H) runOps(ops []string) {
 				if strings.HasPrefix(x, "mask=") {
 					m, _ := strconv.ParseUint(x[5:], 10, 32)
 					mask = uint32(m)
+				}
+				if strings.HasPrefix(x, "probe=") {
+					probe = x[6:]
 				}
 			}
 		case "stream":
@@ -413,6 +425,6 @@ func (h *H) runOps(ops []string) {
 	if stream {
 		h.streamCase(id, mask, queue, reports, wf, data)
 	} else {
-		h.directCase(id, mask, dops)
+		h.directCaseProbe(id, mask, probe, dops)
 	}
 }
